@@ -543,25 +543,25 @@ _MAP_RULE = ("workers over 2-12 keys doing put/get/delete/scan through the gener
              "the final get_sync of every key; ")
 
 OBLIGATIONS = [
-    Obligation("lsm-seq", map_strategy("lsm", False), map_execute("lsm", "lsm-seq"), {"quick": 700, "thorough": 30000},
+    Obligation("lsm-seq", map_strategy("lsm", False), map_execute("lsm", "lsm-seq"), {"quick": 600, "thorough": 30000},
                _MAP_RULE + "one worker, up to 36 ops, LSMTree x {size-tiered, leveled, FIFO}, memtable 1-4, 2-4 levels, with/without WAL; "
                "non-trivial = at least one compaction, one delete and one read"),
-    Obligation("lsm-overlap", map_strategy("lsm", True), map_execute("lsm", "lsm-overlap"), {"quick": 2200, "thorough": 60000},
+    Obligation("lsm-overlap", map_strategy("lsm", True), map_execute("lsm", "lsm-overlap"), {"quick": 1800, "thorough": 60000},
                _MAP_RULE + "2-4 workers; non-trivial = a get/scan whose interval overlaps an observed flush or compaction interval"),
-    Obligation("btree-seq", map_strategy("btree", False), map_execute("btree", "btree-seq"), {"quick": 500, "thorough": 20000},
+    Obligation("btree-seq", map_strategy("btree", False), map_execute("btree", "btree-seq"), {"quick": 400, "thorough": 20000},
                _MAP_RULE + "one worker on BTree order 3-5; non-trivial = a split happened, depth>=2 and a read followed"),
-    Obligation("btree-overlap", map_strategy("btree", True), map_execute("btree", "btree-overlap"), {"quick": 800, "thorough": 30000},
+    Obligation("btree-overlap", map_strategy("btree", True), map_execute("btree", "btree-overlap"), {"quick": 700, "thorough": 30000},
                _MAP_RULE + "2-4 workers on BTree order 3-5; non-trivial = a get/scan interval contains a node split"),
-    Obligation("kv", map_strategy("kv", True), map_execute("kv", "kv"), {"quick": 400, "thorough": 15000},
+    Obligation("kv", map_strategy("kv", True), map_execute("kv", "kv"), {"quick": 300, "thorough": 15000},
                _MAP_RULE + "2-4 workers on KVStore(capacity=None) (put/get/delete); non-trivial = a get overlapping a write of another worker on its key"),
-    Obligation("txn-ser", txn_strategy(), txn_execute("ser", "txn-ser"), {"quick": 500, "thorough": 20000},
+    Obligation("txn-ser", txn_strategy(), txn_execute("ser", "txn-ser"), {"quick": 450, "thorough": 20000},
                "2-5 transactions (read/write scripts with gaps, commit or abort) on a SERIALIZABLE TransactionManager over KVStore/BTree/LSMTree; "
                "brute force over all orders of the committed transactions: one order must explain every committed read and the final store; "
                "non-trivial = two transactions with intersecting read/write sets overlapping in time and >=1 commit"),
-    Obligation("txn-si", txn_strategy(), txn_execute("si", "txn-si"), {"quick": 500, "thorough": 20000},
+    Obligation("txn-si", txn_strategy(), txn_execute("si", "txn-si"), {"quick": 450, "thorough": 20000},
                "same scripts at SNAPSHOT_ISOLATION: every transaction's reads of keys it did not write must all match the state after one "
                "prefix of the commit order; same non-trivial rule"),
-    Obligation("txn-si-safe", txn_strategy(True), txn_execute("si", "txn-si-safe", True), {"quick": 400, "thorough": 15000},
+    Obligation("txn-si-safe", txn_strategy(True), txn_execute("si", "txn-si-safe", True), {"quick": 300, "thorough": 15000},
                "restricted domain in which reading the live store cannot be observed: (a) transactions run back to back, or (b) overlapping "
                "transactions with at most one foreign read each; no exclusions; non-trivial = >=2 commits and a foreign read"),
 ]
